@@ -12,6 +12,7 @@ import (
 	"verif/mc/props/c04"
 	"verif/mc/props/c05"
 	"verif/mc/props/c06"
+	"verif/mc/props/c07"
 )
 
 type prop struct {
@@ -21,6 +22,7 @@ type prop struct {
 }
 
 var props = map[string]prop{
+	"C07": {"model_checking", c07.Main, func(r *core.Run, mode string, raw []byte) { c07.Replay(r, raw) }},
 	"C06": {"fault_enumeration", c06.Main, func(r *core.Run, mode string, raw []byte) { c06.Replay(r, mode, raw) }},
 	"C05": {"model_checking", c05.Main, func(r *core.Run, mode string, raw []byte) { c05.Replay(r, mode, raw) }},
 	"C04": {"model_checking", c04.Main, func(r *core.Run, mode string, raw []byte) { c04.Replay(r, raw) }},
